@@ -95,6 +95,10 @@ class BrokerState:
             for waiter in sorted(
                 worker_state.collected_waiters, key=lambda x: x.waiter_id
             ):
+                if waiter.resolved_event is not None or waiter.timed_out:
+                    # Already resolved / timed out: the step's event was re-queued
+                    # at that moment and is restored with the queue.
+                    continue
                 if waiter.has_requirements and not waiter.requirements:
                     commands.append(
                         TickAddEvent(event=waiter.event, step_name=step_name)
@@ -141,6 +145,7 @@ class BrokerState:
                     resolved_event=serializer.serialize(waiter.resolved_event)
                     if waiter.resolved_event
                     else None,
+                    timed_out=waiter.timed_out,
                 )
                 for waiter in worker_state.collected_waiters
             ]
@@ -231,6 +236,7 @@ class BrokerState:
                         )
                         if waiter_data.resolved_event
                         else None,
+                        timed_out=waiter_data.timed_out,
                     )
                 )
 
